@@ -1,9 +1,10 @@
 // Package c13: Math, isNaN/isFinite, URI coding, escape/unescape
-// (spec/MathSpec.tla, spec/URISpec.tla, generator spec/C13.tla).
+// (spec/MathSpec.tla, spec/URISpec.tla; generator spec/C13.tla, judge spec/C13Judge.tla).
 package c13
 
 import (
 	"fmt"
+	"os"
 	"strings"
 
 	"verif/harness/internal/core"
@@ -27,6 +28,9 @@ func cfg(c *core.Ctx, fams []string, size, nsel int) string {
 		core.TLASet(c.Findings.OpenIDs()), strings.Join(q, ", "), size, nsel)
 }
 
+var mathFams = []string{"math", "gnum", "const", "random"}
+var uriFams = []string{"enc", "single", "lone", "dec", "unesc", "args", "mut"}
+
 var Spec = &gen.Spec{
 	Module:  "C13",
 	Prelude: prelude,
@@ -36,11 +40,76 @@ var Spec = &gen.Spec{
 			size = 1
 		}
 		return []gen.RunCfg{
-			{Name: "math(15.8.2 all functions, value properties, random, isNaN/isFinite)", Cfg: cfg(c, []string{"math", "gnum", "const", "random"}, size, 0)},
-			{Name: "uri(encode, single units, lone surrogates, decode, unescape, non-string arguments, mutations)", Cfg: cfg(c, []string{"enc", "single", "lone", "dec", "unesc", "args", "mut"}, size, 0)},
+			{Name: "math(15.8.2 all functions, value properties, random, isNaN/isFinite)", Cfg: cfg(c, mathFams, size, 0)},
+			{Name: "uri(encode, single units, lone surrogates, decode, unescape, non-string arguments, mutations)", Cfg: cfg(c, uriFams, size, 0)},
 		}
 	},
-	Assume: []string{},
+	Assume: []string{
+		"generator: 107 numbers (IEEE specials, neighbours of 0.5 / 1 / 2^52 / 2^53, extremes), 39 strings, 4 other primitives, 9 scripted conversion objects for every unary function; all ordered pairs of the numbers for pow and atan2; 0-3 arguments over 15 values for max/min",
+		"results ES5 calls an implementation-dependent approximation are judged by class (sign, range, anchors within 2^-46 relative), monotonicity on sampled pairs and inverse relations with stated tolerances; perfect squares and exactly representable integer powers are demanded exactly (property statement: exact anchors)",
+		"URI: strings of at most 3 (quick) / 4 (thorough) symbols over the stated alphabets; decoding over sequences of boundary octets, every single code unit, every one-character mutation of valid encodings; random strings of up to 8 code points in the judge direction",
+		"trusted: otto's relational operators inside BETWEEN (checked by C05), String.prototype.charCodeAt for the projection of strings",
+	},
 }
 
-func Check(c *core.Ctx) (map[string]any, []string, error) { return gen.Check(c, Spec) }
+// swapped is the prelude of the adapter self-test: two pairs of built-ins are exchanged.
+const swapped = prelude + `
+(function(){ var a = Math.max; Math.max = Math.min; Math.min = a; var e = encodeURI; encodeURI = encodeURIComponent; encodeURIComponent = e; })();
+`
+
+func Check(c *core.Ctx) (map[string]any, []string, error) {
+	sp := Spec
+	if os.Getenv("VERIF_C13_ONLY") == "judge" { // development aid: a token generator run, then the judge
+		sp = &gen.Spec{Module: "C13", Prelude: prelude, Assume: Spec.Assume, Runs: func(c *core.Ctx) []gen.RunCfg {
+			return []gen.RunCfg{{Name: "const", Cfg: cfg(c, []string{"const"}, 0, 0)}}
+		}}
+	}
+	cov, assume, err := gen.Check(c, sp)
+	if err != nil {
+		return nil, nil, err
+	}
+	jc, evs, rejected, err := Judge(c)
+	if err != nil {
+		return nil, nil, fmt.Errorf("judge: %v", err)
+	}
+	cov["judge"] = jc
+	cov["traces_validated_against_impl"] = cov["traces_validated_against_impl"].(int64) + int64(len(evs))
+	cov["evaluations"] = cov["evaluations"].(int64) + int64(len(evs))
+	if t, ok := jc["tlc"].(map[string]any); ok {
+		cov["states"] = cov["states"].(int64) + t["distinct"].(int64)
+		cov["transitions"] = cov["transitions"].(int64) + t["generated"].(int64)
+	}
+	if ss, ok := cov["samples"].([]any); ok {
+		for i := 0; i < len(evs) && len(ss) < 12; i += 1 + len(evs)/5 {
+			ss = append(ss, map[string]any{"recorded_event_judged_by_tlc": evs[i].Line})
+		}
+		cov["samples"] = ss
+	}
+	cov["rule"] = "generator: one case per TLC state of spec/C13.tla (distinct = distinct expected outcomes); judge: one recorded evaluation per TLC state of spec/C13Judge.tla"
+	if c.Thorough() || os.Getenv("VERIF_SELFTEST") != "" {
+		st, err := selfTestJudge(c, evs, rejected)
+		if err != nil {
+			return nil, nil, err
+		}
+		// adapter mutation: the same generator against a runtime whose built-ins are swapped must be rejected
+		c2, err := core.NewCtx("C13-selftest", "quick")
+		if err != nil {
+			return nil, nil, err
+		}
+		mut := &gen.Spec{Module: "C13", Prelude: swapped, Runs: func(*core.Ctx) []gen.RunCfg {
+			return []gen.RunCfg{{Name: "selftest", Cfg: cfg(c, []string{"enc", "const"}, 0, 0)}}
+		}}
+		cov2, _, err := gen.Check(c2, mut)
+		if err != nil {
+			return nil, nil, fmt.Errorf("self-test: %v", err)
+		}
+		if len(c2.Violations()) == 0 {
+			return nil, nil, fmt.Errorf("self-test failed: swapped built-ins were not rejected")
+		}
+		st["adapter_mutation_cases"] = cov2["evaluations"]
+		st["adapter_mutation_rejected"] = len(c2.Violations())
+		os.RemoveAll(core.Root + "/replays/C13-selftest")
+		cov["selftest"] = st
+	}
+	return cov, assume, nil
+}
